@@ -231,6 +231,31 @@ def run(tier: str, only=None) -> int:
                         n += 1
                         bounds = {"ps": 1, "free": 1} if (topo == "popen" or tier == "thorough") else {"ps": 0, "free": 1}
                         harness.run_exploration(rep, PID, name, TermScn, P, bounds, max_execs=cap, horizon=60000)
+    # a failing makegateway (id taken, sequentially or by a concurrent call) leaves no process behind
+    from .c20_specs_ids import IdScn
+    from .c20_specs_ids import stmt_pred as id_stmt_pred
+
+    class FailScn:
+        scenario = staticmethod(IdScn.scenario)
+
+        @staticmethod
+        def oracle(w, S, P):
+            v, out = IdScn.oracle(w, S, P)
+            if v is not None:
+                return ("c05:makegateway-" + v[0].split(":", 1)[1], v[1]), out
+            return None, out
+
+    SCENARIOS["fail"] = FailScn
+    stmt = harness.stmt_mask(id_stmt_pred)
+    for fname, FP in (
+        ("explicit-live", {"pre": ["popen//id=p"], "makers": [["popen//id=p"], ["popen"]]}),
+        ("explicit-next-auto", {"makers": [["popen//id=gw0"], ["popen"]]}),
+        ("same-explicit-twice", {"makers": [["popen//id=same"], ["popen//id=same"]]}),
+    ):
+        if only and "fail" not in only:
+            continue
+        harness.run_exploration(rep, PID, f"fail/{fname}/sync", FailScn, FP, {"ps": 1, "free": 1} if tier == "quick" else {"ps": 2, "free": 1}, max_execs=cap)
+        harness.run_exploration(rep, PID, f"fail/{fname}/stmt", FailScn, FP, {"ps": 0, "pl": 2, "free": 0}, stmt=stmt, max_execs=cap)
     # real cells
     if not only or "real" in only:
         cells = [(m, s, 0.5) for m in ("thread", "main_thread_only") for s in list(STATES) + ["failed-id"]]
@@ -260,4 +285,8 @@ def run(tier: str, only=None) -> int:
 
 
 def replay(path: str) -> int:
-    return harness.replay_file(path, SCENARIOS)
+    from .c20_specs_ids import IdScn
+    from .c20_specs_ids import stmt_pred as id_stmt_pred
+
+    SCENARIOS["fail"] = IdScn
+    return harness.replay_file(path, SCENARIOS, stmt_for=lambda d: harness.stmt_mask(id_stmt_pred))
